@@ -125,6 +125,9 @@ func pickKind(r *common.Rand, fk loaderlab.FKind) loaderlab.FaultKind {
 		} else {
 			k = common.PickOf(r, allKinds)
 		}
+		if k == loaderlab.FNullEntities && skipNullEntities {
+			continue
+		}
 		if k.Applicable(fk) {
 			return k
 		}
@@ -202,10 +205,17 @@ func requestedFetches(p *loaderlab.Plan, lab *loaderlab.Lab) []int {
 	return out
 }
 
+// nullableReq: with a nullable @requires field a null entity (a legitimate "not found" answer) legitimately
+// makes the dependent fetch see null, so that probe is left out for such plans
+var skipNullEntities bool
+
 func faultSets(p *loaderlab.Plan, r *common.Rand, req []int, tier string) []faultSet {
 	var sets []faultSet
 	for _, fid := range req {
 		for _, k := range allKinds {
+			if k == loaderlab.FNullEntities && skipNullEntities {
+				continue
+			}
 			if k.Applicable(p.Fetches[fid].Kind) {
 				sets = append(sets, faultSet{fid: k})
 			}
@@ -340,6 +350,7 @@ func main() {
 		total := 0
 		for idx := 0; idx < n; idx++ {
 			p, r, o := makePlan(seed, idx, mode)
+			skipNullEntities = o.nullableReq
 			crumb(seed, idx, mode, faultSet{})
 			req := requestedFetches(p, lab)
 			line, k := planLine(lab, p, r, faultSets(p, r, req, tier), seed, idx, o)
